@@ -150,7 +150,7 @@ theorem chrome_groups (m : Int) (ls : List LogInfo) :
 /-- the Apple policy's single group: All-logs ≥ total by lifetime -/
 theorem apple_groups (m : Int) (ls : List LogInfo) :
     rawGroups .apple m ls = [⟨baseName, dedup (ls.map (·.id)), policyTotal m, true⟩] := by
-  simp [rawGroups, rawGroups.go, subgroups, Gen.Policy.appleSubgroups, incCount, apple_thresholds]
+  rw [apple_groups_raw, apple_thresholds]
 
 theorem base_name_is_all_logs : Gen.Policy.baseName = "All-logs" ∧ Gen.Policy.baseGroupAllOperators = true := by decide
 
@@ -232,8 +232,7 @@ theorem liveness_counterexample :
    is FALSE for this code: `liveness_counterexample` (finding F10a). What is missing is exactly `hearly`: no group
    race may have ended unsuccessfully before the requests completed; in the timed code a group race without
    cancellation ends unsuccessfully only after its last timer fired (i · PostBatchInterval), so `hearly` holds
-   whenever every request completes before the base group's last timer. The Apple shape (a single group) is not
-   covered by this theorem; for it the same statement holds by the same argument with `sumOther = 0`. -/
+   whenever every request completes before the base group's last timer. -/
 /-- **liveness_partial** (Chrome policy): the groups are the ones `ChromeCTPolicy.LogsByGroup` builds from a log
 list with distinct URLs, every member of a group is in its submission session (positive weights), and `ops1` is any
 schedule after which the caller has not cancelled, no contacted log has failed, every goroutine has finished (every
@@ -265,6 +264,41 @@ theorem liveness_partial (m : Int) (ls : List LogInfo) (r : Run) (hc : policyCfg
     recvd := fun g hr => hearly g (hi.recvd_gdone g false hr)
     ret := by intro ls e h; rw [hret] at h; cases h }
   exact (done_exec ops2 hd hnc).ret
+
+/-- **liveness_partial_apple**: the same for the single group `AppleCTPolicy.LogsByGroup` builds. -/
+theorem liveness_partial_apple (m : Int) (ls : List LogInfo) (r : Run) (hc : policyCfg .apple m ls = some r.cfg)
+    (wf : WF r) (hsess : ∀ g ∈ r.cfg, ∀ l ∈ g.logs, l ∈ r.session g.name)
+    (ops1 ops2 : List Op)
+    (hctx : (after r ops1).ctx = false)
+    (hok : ∀ l, (after r ops1).sub.results l ≠ some .err)
+    (hfin : ∀ g ∈ names r.cfg, ∀ l ∈ r.session g, (after r ops1).gor g l = .finished)
+    (hearly : ∀ g, (after r ops1).gdone g ≠ some false)
+    (hret : (after r ops1).ret = none)
+    (hnc : Op.ctxDone ∉ ops2) :
+    (∀ g ∈ r.cfg, (after r ops1).sub.needs g.name ≤ 0) ∧
+    ∀ res e, (exec r (after r ops1) ops2).ret = some (res, e) → e = false := by
+  obtain ⟨B, sh, hB⟩ := apple_shape_of_policy hc
+  have hall := apple_all_complete wf sh hsess hB ops1 hctx hok hfin
+  refine ⟨hall, ?_⟩
+  have hi := inv_after wf ops1
+  have hd : Done r (after r ops1) := {
+    ctx := hctx
+    needs := by
+      intro g hg
+      simp only [names, List.mem_map] at hg
+      obtain ⟨grp, hgrp, rfl⟩ := hg
+      exact hall grp hgrp
+    gdone := hearly
+    recvd := fun g hr => hearly g (hi.recvd_gdone g false hr)
+    ret := by intro ls e h; rw [hret] at h; cases h }
+  exact (done_exec ops2 hd hnc).ret
+
+/-- an Apple instance: three logs, a 12-month certificate (two SCTs needed); two answer, then the third goroutine
+sees the group complete -/
+def runA : Run := ⟨[⟨0, [1, 2, 3], 2, true⟩], fun g => if g = 0 then [1, 2, 3] else []⟩
+example : policyCfg .apple 12 [⟨1, true, true, none, none⟩, ⟨2, false, true, none, none⟩, ⟨3, false, true, none, none⟩] = some runA.cfg ∧
+    (exec runA (St.init runA) [.timerFire 0 1, .request 0 1, .timerFire 0 2, .request 0 2, .setResult 0 1 true,
+      .setResult 0 2 true, .timerFire 0 3, .groupDone 0, .recv 0, .collect]).ret = some ([1, 2], false) := by decide
 
 /-- instance of `liveness_partial`: in `run2` both logs answer before the All-logs race has ended -/
 def opsInTime : List Op := [.timerFire 1 1, .request 1 1, .timerFire 2 2, .request 2 2,
